@@ -116,5 +116,34 @@ C07_UNITS = [
     chanunit("mpsc_cancel", "mpsc", MPSC, "spec/l2/MCMpscChan_cancel.cfg",
              [rx("rx", ["recv", "recv"], True), tx("s1", ["send", "drop"]), tx("s2", ["send", "drop"], True)], victims=["rx"]),
 ]
+SPSC = "spec/l2/MCSpscChan.tla"
+C06_UNITS += [
+    chanunit("spsc_co", "spsc", SPSC, "spec/l2/MCSpscChan_co.cfg",
+             [rx("rx", ["recv", "try", "recv", "recv"], True), tx("s1", ["send", "send", "drop"])]),
+    chanunit("spsc_th", "spsc", SPSC, "spec/l2/MCSpscChan_th.cfg",
+             [rx("rx", ["recv", "try", "recv", "recv"], False), tx("s1", ["send", "send", "drop"], True)]),
+]
+C07_UNITS += [
+    chanunit("spsc_rdrop", "spsc", SPSC, "spec/l2/MCSpscChan_rdrop.cfg",
+             [rx("rx", ["try", "rdrop"], True), tx("s1", ["send", "send", "drop"])]),
+    chanunit("spsc_lastdrop", "spsc", SPSC, "spec/l2/MCSpscChan_F3.cfg",
+             [rx("rx", ["recv"], True), tx("s1", ["drop"])], n=100,
+             tlc_expect_error="Deadlock reached", fixed_cfg="spec/l2/MCSpscChan_F3fixed.cfg"),
+]
+MPMC = "spec/l2/MCMpmcChan.tla"
+C06_UNITS += [
+    chanunit("mpmc_2x2", "mpmc", MPMC, "spec/l2/MCMpmcChan_2x2.cfg",
+             [rx("r1", ["recv", "try", "recv"], True), rx("r2", ["recv", "recv"]), tx("s1", ["send", "send", "drop"], True), tx("s2", ["send", "drop"])]),
+    chanunit("mpmc_timed", "mpmc", MPMC, "spec/l2/MCMpmcChan_timed.cfg",
+             [rx("r1", ["trecv", "recv"], True, dur=1), rx("r2", ["try", "rdrop"]), tx("s1", ["send", "drop"]), tx("s2", ["clone", "drop", "send", "drop"], True)]),
+]
+C07_UNITS += [
+    chanunit("mpmc_lastdrop", "mpmc", MPMC, "spec/l2/MCMpmcChan_F4.cfg",
+             [rx("r1", ["recv"], True), rx("r2", ["try"]), tx("s1", ["send", "drop"])], n=200,
+             tlc_expect_error="DrainThenDisconnected is violated|Deadlock reached", fixed_cfg="spec/l2/MCMpmcChan_F4fixed.cfg"),
+    chanunit("mpmc_try_lastdrop", "mpmc", MPMC, "spec/l2/MCMpmcChan_F4b.cfg",
+             [rx("r1", ["try"], True), tx("s1", ["send", "drop"])], n=100,
+             tlc_expect_error="DrainThenDisconnected is violated", fixed_cfg="spec/l2/MCMpmcChan_F4bfixed.cfg"),
+]
 PROPS["C06"] = dict(assumptions=["queues are linearizable FIFOs (C03); AbsBlocker (C02); timers (C08)"], units=C06_UNITS + C07_UNITS)
 PROPS["C07"] = dict(assumptions=["queues are linearizable FIFOs (C03); AbsBlocker (C02); timers (C08)"], units=C07_UNITS + C06_UNITS)
